@@ -651,6 +651,88 @@ def gen_pdacc(rng, tier, cs):
                ('pdacc', n, m, f.coq, g.coq, tau, sigma, which, gam, N, tuple(x0)) if N > 0 else None)
 
 
+def _perms(seed, nops, N):
+    """the permutations np.random.permutation(range(nops)) yields after np.random.seed(seed)"""
+    np.random.seed(seed)
+    return [[int(i) for i in np.random.permutation(range(nops))] for _ in range(N)]
+
+
+def gen_kzr(rng, tier, cs):
+    from odl.solvers.iterative.iterative import kaczmarz
+    for k in range(12 if tier == 'quick' else 100):
+        n, _ = _sizes(rng, tier)
+        nops = rng.choice([2, 3, 3, 4])
+        ms = [rng.randint(1, 3) for _ in range(nops)]
+        Ms = [_mat(rng, m, n) for m in ms]
+        rhs = [_vec(rng, m) for m in ms]
+        om = [_dy(rng, (0.0625, 0.125, 0.25, 0.5)) for _ in ms]
+        pc, pf, pd = _proj(rng)
+        x0 = _vec(rng, n)
+        N = max(1, min(_niter(rng, tier, k), 10))
+        seed = rng.randint(0, 10 ** 6)
+        orders = _perms(seed, nops, N)
+        ops = [_mop(M, n) for M in Ms]
+        rh = [o.range.element(r) for o, r in zip(ops, rhs)]
+        dom = _rn(n)
+        t1, c1 = _rec()
+        x = dom.element(x0)
+        np.random.seed(seed)
+        kaczmarz(ops, x, rh, N, omega=om, projection=pf, random=True, callback=c1)
+        sp = []
+        for n1 in range(N + 1):      # the second call continues the stream of the global generator
+            x = dom.element(x0)
+            np.random.seed(seed)
+            kaczmarz(ops, x, rh, n1, omega=om, projection=pf, random=True)
+            kaczmarz(ops, x, rh, N - n1, omega=om, projection=pf, random=True)
+            sp.append(np.asarray(x).tolist())
+        cs.add('{| kzr_nc := %d; kzr_Ms := %s; kzr_rhs := %s; kzr_omega := %s; kzr_proj := %s; kzr_orders := %s; '
+               'kzr_x := %s; kzr_n := %d; kzr_outer := %s; kzr_split := %s |}'
+               % (n, C.lst(Ms, C.qss), C.qss(rhs), C.qs(om), pc, C.lst(orders, C.nats) + '%nat', C.qs(x0), N,
+                  C.qss(t1), C.qss(sp)),
+               {'solver': 'kaczmarz(random=True)', 'Ms': Ms, 'rhs': rhs, 'omega': om, 'projection': pd, 'seed': seed,
+                'orders': orders, 'x0': x0, 'niter': N},
+               ('kzr', n, tuple(ms), tuple(om), pd, seed, N, tuple(x0)))
+
+
+def gen_adr(rng, tier, cs):
+    from odl.solvers.nonsmooth.alternating_dual_updates import adupdates, adupdates_simple
+    for k in range(12 if tier == 'quick' else 100):
+        n, _ = _sizes(rng, tier)
+        nops = rng.choice([2, 3, 3])
+        ms = [rng.randint(1, 3) for _ in range(nops)]
+        if rng.random() < 0.6:
+            ms[1] = ms[0]
+        Ms = [_mat(rng, m, n) for m in ms]
+        gs = [_fk(rng, m, 'cc') for m in ms]
+        inner = [_dy(rng) for _ in ms]
+        step = _dy(rng, (0.5, 1.0, 2.0))
+        x0 = _vec(rng, n)
+        N = max(1, min(_niter(rng, tier, k), 8))
+        seed = rng.randint(0, 10 ** 6)
+        orders = _perms(seed, nops, N)
+        keys = [ms.index(m) for m in ms]
+        Ls = [_mop(M, n) for M in Ms]
+        go = [g.build(Li.range) for g, Li in zip(gs, Ls)]
+        dom = _rn(n)
+        t1, c1 = _rec()
+        x = dom.element(x0)
+        np.random.seed(seed)
+        adupdates(x, go, Ls, step, inner, N, random=True, callback=c1)
+        ref = []
+        for j in range(1, N + 1):
+            x = dom.element(x0)
+            np.random.seed(seed)
+            adupdates_simple(x, go, Ls, step, inner, j, random=True)
+            ref.append(np.asarray(x).tolist())
+        cs.add('{| kdr_nc := %d; kdr_Ms := %s; kdr_gs := %s; kdr_inner := %s; kdr_keys := %s; kdr_step := %s; '
+               'kdr_orders := %s; kdr_x := %s; kdr_n := %d; kdr_outer := %s; kdr_ref := %s |}'
+               % (n, C.lst(Ms, C.qss), C.lst([g.coq for g in gs]), C.qs(inner), C.nats(keys) + '%nat', C.q(step),
+                  C.lst(orders, C.nats) + '%nat', C.qs(x0), N, C.qss(t1), C.qss(ref)),
+               {'solver': 'adupdates(random=True)', 'Ms': Ms, 'g': [g.desc for g in gs], 'inner': inner,
+                'stepsize': step, 'seed': seed, 'orders': orders, 'x0': x0, 'niter': N},
+               ('adr', n, tuple(ms), tuple(g.coq for g in gs), step, seed, N, tuple(x0)))
+
+
 GENS = [('fk', 'check_fk', 'case_fk', gen_fk), ('admm', 'check_admm', 'case_admm', gen_admm),
         ('adupdates', 'check_adup', 'case_adup', gen_adup), ('doubleprox_dc', 'check_dpdc', 'case_dpdc', gen_dpdc),
         ('pdhg', 'check_pdhg', 'case_pdhg', gen_pdhg), ('landweber', 'check_lw', 'case_lw', gen_lw),
@@ -658,7 +740,8 @@ GENS = [('fk', 'check_fk', 'case_fk', gen_fk), ('admm', 'check_admm', 'case_admm
         ('mlem', 'check_em', 'case_em', gen_em), ('steepest_descent', 'check_sd', 'case_sd', gen_sd),
         ('douglas_rachford_pd', 'check_dr', 'case_dr', gen_dr), ('dca', 'check_dca', 'case_dca', gen_dca),
         ('accelerated_proximal_gradient', 'check_apg', 'case_apg', gen_apg),
-        ('pdhg_accelerated', 'check_pdacc', 'case_pdacc', gen_pdacc)]
+        ('pdhg_accelerated', 'check_pdacc', 'case_pdacc', gen_pdacc),
+        ('kaczmarz_random', 'check_kzr', 'case_kzr', gen_kzr), ('adupdates_random', 'check_adr', 'case_adr', gen_adr)]
 
 
 def correspondence(rng, tier):
